@@ -5,4 +5,4 @@ import vlib
 def setup():
     here = os.path.dirname(os.path.abspath(__file__))
     vlib.build_ocaml_driver("c04_driver", os.path.join(vlib.COQ, "extracted"),
-                            os.path.join(here, "driver", "c04_driver.ml"), only=["c04_model"])
+                            os.path.join(here, "driver", "c04_driver.ml"), only=["c04_model", "c01_model"])
